@@ -373,6 +373,10 @@ def run(ctx):
         where_ = "inside the sampling loop" if nla_.cfg.in_loop(nid_) else "outside the sampling loop"
         ctx.ob("R-ORDER", "C12.7", nl_, f"the per-iteration bookkeeping (update_state: history row, checkpoint) called {where_} runs only after a sample was consumed in this call of nested_sampling_loop - not on entry of a resumed loop", nla_.dominates(cs_[0][0], nid_), f"`{src(c_)}` under {[(src(e_)[:30], t_) for e_, t_ in guard_facts(nla_, nid_)]}", node=c_)
     ctx.floor("C12.7", 3)
+    # ---- C12.8 a resumed run does not rewind the random streams (shared with C14.2)
+    from .C14 import seed_once_rule as _sor
+    _sor(ctx, "C12.8")
+    ctx.floor("C12.8", 1)
     ctx.assumptions += ["pickle restores every attribute not named in __getstate__ bit-for-bit", "observational equality of result-bearing fields after resume is not decided (needs a run)"]
 
 
